@@ -28,7 +28,7 @@ RULE = (
 ASSUMPTIONS = ["when a default is re-registered, a runtime created while the earlier default was registered may serve either (the statement does not say); a runtime that predates the first registration must serve the current one"]
 FLOORS = {"programs": (15000, 150000), "runs_compared": (60000, 600000), "exits_by_exception": (3000, 30000),
           "reentered_active": (600, 6000), "started_without_runtime": (4000, 40000), "late_defaults": (3000, 30000), "default_reregistrations": (800, 8000),
-          "succession_threads": (3500, 35000), "succession_threads_without_runtime": (2000, 20000)}
+          "library_derived_blocks": (1500, 15000), "succession_threads": (3500, 35000), "succession_threads_without_runtime": (2000, 20000)}
 SHARDS_QUICK = 4
 
 
@@ -70,7 +70,10 @@ def gen_block(r, depth, size, names):
             out.append(["run", r.choice(["T0", "T1", "T2"])])
         elif k < 0.65 and depth < 4:
             choice = r.random()
-            if choice < 0.45 or not names:
+            if choice < 0.12:
+                # a runtime the library derives itself from the CURRENT runtime (overrides only its own request types)
+                expr = ["lib", r.choice(["cache.disabled", "logging.disabled"])]
+            elif choice < 0.45 or not names:
                 expr = ["handle", r.choice(["T0", "T1", "T2"]), r.choice(TAGS)]  # with handle(T, h): derive from current
             else:
                 expr = ["name", r.choice(names)]
@@ -166,7 +169,16 @@ def execute(program):
                     raise Mismatch(f"run({T}) answered by {got!r}, model says {sorted(exp)!r}", st)
             elif op == "with":
                 expr = st[1]
-                if expr[0] == "handle":
+                if expr[0] == "lib":
+                    import labrea.cache
+                    import labrea.logging
+
+                    cur_ = model.current()
+                    held = Held(cur_, {**model.defaults, **cur_.snap})
+                    obj = labrea.cache.disabled() if expr[1] == "cache.disabled" else labrea.logging.disabled()
+                    name = None
+                    stats["lib_blocks"] = stats.get("lib_blocks", 0) + 1
+                elif expr[0] == "handle":
                     cur_ = model.current()
                     held = Held(cur_, {**model.defaults, **cur_.snap})
                     held[expr[1]] = expr[2]
@@ -283,6 +295,7 @@ def run_one(ctx, program, tag):
     ctx.count("reentered_active", stats["reentered"])
     ctx.count("late_defaults", stats["late"])
     ctx.count("default_reregistrations", stats.get("rereg", 0))
+    ctx.count("library_derived_blocks", stats.get("lib_blocks", 0))
     if not program["start_with_runtime"]:
         ctx.count("started_without_runtime")
     if result.get("hung"):
